@@ -184,3 +184,69 @@ ITER_NEXT['bytes'] = bytes_next
 @model(r'^(?:std::str::|core::str::)?Chars::<\'_>::as_str$')
 def chars_as_str(I, m, a, dt):
     it = deref(I, a[0]); return sref(StrS(it.s.chars, it.i, it.s.hi))
+
+# ---- further str methods ----
+@model(r'^core::str::<impl str>::(starts_with|ends_with|contains|strip_prefix|strip_suffix)::<(&str|char|&&str|&(?:std::string::)?String)>$')
+def str_affix(I, m, a, dt):
+    s = gs(I, a[0]); k = m.group(1)
+    if m.group(2) == 'char': pat = [a[1]]
+    else: pat = gs(I, a[1]).cps()
+    n = len(pat); cps = s.cps()
+    def match_at(i):
+        if i < 0 or i + n > len(cps): return False
+        return zand(*[cps[i + j].v == pat[j].v for j in range(n)])
+    if k == 'starts_with': return VBool(match_at(0))
+    if k == 'ends_with': return VBool(match_at(len(cps) - n))
+    if k == 'contains': return VBool(zor(*[match_at(i) for i in range(len(cps) - n + 1)]) if n <= len(cps) else False)
+    if k == 'strip_prefix':
+        if I.branch(match_at(0)): return some(sref(StrS(s.chars, s.lo + n, s.hi)))
+        return none()
+    if I.branch(match_at(len(cps) - n)): return some(sref(StrS(s.chars, s.lo, s.hi - n)))
+    return none()
+@model(r'^core::str::<impl str>::(trim|trim_start|trim_end)$')
+def str_trim(I, m, a, dt):
+    s = gs(I, a[0]); lo, hi = s.lo, s.hi; k = m.group(1)
+    if k in ('trim', 'trim_start'):
+        while lo < hi and I.branch(is_ws_cond(s.chars[lo][0].v)): lo += 1
+    if k in ('trim', 'trim_end'):
+        while hi > lo and I.branch(is_ws_cond(s.chars[hi - 1][0].v)): hi -= 1
+    return sref(StrS(s.chars, lo, hi))
+@model(r'^core::str::<impl str>::is_char_boundary$')
+def str_is_char_boundary(I, m, a, dt):
+    s = gs(I, a[0]); i = I.concretize(a[1].v, what='byte index')
+    return VBool(s.at_byte(i) is not None)
+@model(r'^core::str::<impl str>::split_at$')
+def str_split_at(I, m, a, dt):
+    s = gs(I, a[0]); i = I.concretize(a[1].v, what='byte index'); j = s.at_byte(i)
+    if j is None: raise PathEnd('panic', f'split_at({i}) not on a char boundary')
+    return VTuple([sref(StrS(s.chars, s.lo, j)), sref(StrS(s.chars, j, s.hi))])
+@model(r'^core::str::<impl str>::get::<(?:std::ops::)?RangeTo<usize>>$')
+def str_get_to(I, m, a, dt):
+    s = gs(I, a[0]); hi = I.concretize(a[1].items[0].v, what='str offset'); j = s.at_byte(hi)
+    if j is None: return none()
+    return some(sref(StrS(s.chars, s.lo, j)))
+@model(r'^<str as (?:std::ops::)?Index<(?:std::ops::)?RangeTo<usize>>>::index$|^core::str::traits::<impl (?:std::ops::)?Index<(?:std::ops::)?RangeTo<usize>> for str>::index$')
+def str_index_to(I, m, a, dt):
+    s = gs(I, a[0]); hi = I.concretize(a[1].items[0].v, what='str index'); j = s.at_byte(hi)
+    if j is None: raise PathEnd('panic', f'str index ..{hi} not on a char boundary / out of range')
+    return sref(StrS(s.chars, s.lo, j))
+@model(r'^(?:core::)?char::methods::<impl char>::(is_ascii_alphanumeric|is_alphanumeric|is_ascii_whitespace|is_ascii|is_numeric|is_ascii_punctuation|to_ascii_lowercase|to_ascii_uppercase|is_ascii_lowercase|is_ascii_uppercase|to_digit)$')
+def char_more(I, m, a, dt):
+    c = deref(I, a[0]).v; k = m.group(1)
+    dig = zand(c >= 48, c <= 57); up = zand(c >= 65, c <= 90); lo = zand(c >= 97, c <= 122)
+    if k == 'is_ascii_alphanumeric': return VBool(zor(dig, up, lo))
+    if k == 'is_ascii_whitespace': return VBool(zor(c == 32, c == 9, c == 10, c == 12, c == 13))
+    if k == 'is_ascii': return VBool(c < 128)
+    if k == 'is_ascii_lowercase': return VBool(lo)
+    if k == 'is_ascii_uppercase': return VBool(up)
+    if k == 'is_ascii_punctuation': return VBool(zor(zand(c >= 33, c <= 47), zand(c >= 58, c <= 64), zand(c >= 91, c <= 96), zand(c >= 123, c <= 126)))
+    if k == 'to_ascii_lowercase': return VInt(zite(up, c + 32, c), 'char')
+    if k == 'to_ascii_uppercase': return VInt(zite(lo, c - 32, c), 'char')
+    if k == 'to_digit':
+        radix = I.concretize(a[1].v, what='radix')
+        if radix != 10: raise Unsupported('to_digit radix != 10')
+        if I.branch(dig): return some(VInt(c - 48, 'u32'))
+        return none()
+    if is_conc(c): return VBool(chr(c).isalnum() if k == 'is_alphanumeric' else chr(c).isnumeric())
+    if I.branch(c < 128): return VBool(zor(dig, up, lo) if k == 'is_alphanumeric' else dig)
+    raise Unsupported(k + ' on a symbolic non-ASCII char')
